@@ -57,6 +57,14 @@ CLAIMED = {
   "Deductive proof of the two lock-protected timestamp steps as atomic transitions: server side db19.Timestamp returns the cursor and strictly advances it (to +5 ms when the millisecond field is below 500, else +1 ms, always a valid later date), so the returned value and the window it reserves lie below every later value; client side Thread.Timestamp preserves the state invariant (limit in {0,5,256}, valid base, millisecond headroom), on the fast path returns either the previous value plus exactly 1 ms (at most 4 times per fetched base, staying on AddMs's fast path) or (base, extra) with extra = 1..255 strictly increasing and never 0, and otherwise fetches a fresh base and resets the block.",
   "Each function body runs under its tsLock and is verified as one sequential atomic step (sync.Mutex trusted); the induction over arbitrary sequences of these steps (uniqueness across all clients: windows are disjoint because the server cursor passes every reserved window) is argued from these post-conditions, not machine-checked. Assumed: the client's th.Dbms().Timestamp() returns what the server's Timestamp returned (protocol, C40 territory); the ticker's 'only forwards' update and tsExpire run in goroutines and are not modelled; Now() and Go's time arithmetic (Plus) trusted.",
   "DESIGN.md §4 C34"),
+ "C31": (
+  "Deductive proof about string literals in the lexer (shared by the language and query compilers): quotedString and rawString return a String token only when the closing quote was actually found (the byte before the final position is the quote), and otherwise return the Error token with the position at end of input; the position never moves backwards or outside the source; rawString's text is exactly the bytes between the back quotes; read/peek/doesc/digit are proved against their definitions (NUL mapped to 0xff, escapes consume at most 3 more bytes or nothing). Loops carry invariants, frames and variants.",
+  "Scope: the 'unterminated literal is an error' half and the byte-level scanning of literals. NOT covered: the full display/parse round trip (core.escape vs doesc form by form), numbers, dates (see C33) and containers. strings.Builder/strings.Clone are assumed library contracts. The unterminated-literal defect found by the 'terminated' obligation was fixed.",
+  "DESIGN.md §4 C31"),
+ "C32": (
+  "Deductive proof of totality and progress of the lexer: for every source string, next() and every scanning helper it reaches (read, peek, match, matchOneOf, matchWhile, matchWithUnderscores, matchIdentTail, nonWhiteRemaining, whitespace, lineComment, spanComment, rawString, quotedString, doesc, number, identifier, Next) never index or slice out of range (527 obligations), keep 0 <= position <= len(source), report Item.Pos = starting position, return Eof exactly when called at the end of the source and otherwise strictly advance the position - so token positions strictly increase and scanning terminates; every loop has a proved variant.",
+  "Function-valued parameters (IsDigit, IsHexDigit, isIdentChar) are modelled as pure predicates that are false for 0 and each call site is obliged to pass such a function; the lexer's keyword callback and intern.String/strings.ReplaceAll are assumed effect-free. Sources are assumed shorter than 2^31 bytes (Item.Pos is int32). NOT covered: the parser (recursive descent reporting errors by panic), the 'tokens tile the source' text equality for processed tokens, Ahead/AheadSkip buffering.",
+  "DESIGN.md §4 C32"),
 }
 
 NA = {
